@@ -57,6 +57,7 @@ class Engine(ExprMixin, CallMixin, SpecMixin, StmtMixin):
         self.reg = registry
         self.repo = repo
         self._ufs = {}
+        self._memfacts = set()
         self._spec_cache = {}
         self._ast_cache = {}
         self._heap0 = {}
@@ -203,6 +204,7 @@ class Engine(ExprMixin, CallMixin, SpecMixin, StmtMixin):
         self.called = set()
         self.facts = []
         self._heap0 = {}
+        self._memfacts = set()
         for _n, _b, _t in self.reg.z3axioms:
             self.facts.extend(_b(self))
         self.cur_contract = c
@@ -382,12 +384,10 @@ class Engine(ExprMixin, CallMixin, SpecMixin, StmtMixin):
                 allowed[m[1:]] = "ALL"
             elif m.startswith("each("):
                 lsv = self.ev_spec_value(m[5:-1], es, old=entry)
-                n = entry.list_len(lsv.ty, lsv.t)
-                e = entry.list_elems(lsv.ty, lsv.t)
-                j = z3.Int(fresh_name("j"))
+                mem = self.list_mem(entry, lsv.ty, lsv.t)
                 for name, _ in self.arrays_of(lsv.ty.args[0], entry):
                     if allowed.get(name) != "ALL":
-                        allowed.setdefault(name, []).append(z3.Exists([j], z3.And(0 <= j, j < n, e[j] == r)))
+                        allowed.setdefault(name, []).append(mem[r])
             else:
                 sv = self.ev_spec_value(m, es, old=entry)
                 for name, _ in self.arrays_of(sv.ty, entry):
@@ -430,58 +430,54 @@ def run_cvc5(smt2, timeout_s, want_model=False):
         os.unlink(path)
 
 
-def discharge(ob, rlimit=0, timeout_ms=2500, use_cvc5=True, long_ms=20000):
+def discharge(ob, rlimit=0, timeout_ms=3000, use_cvc5=True, long_ms=30000):
     """decide one obligation; never maps unknown to a violation.
-    1. z3 on the full quantified formula; 2. bounded instantiation (sound for 'proved', candidate
-    counter-model for 'failed'); 3. cvc5 on the full formula for what is still open."""
+    1. z3 on the full quantified formula (short, then long budget);
+    2. only if z3 cannot decide it: bounded instantiation - 'unsat' there is a proof, 'sat' a candidate
+       counter-model (reported as failed, backend says so);
+    3. cvc5 on the full formula for what is still open."""
     from .binst import bounded_check
     t0 = time.time()
-    s = z3.Solver()
-    s.set("timeout", timeout_ms)
-    s.set("random_seed", 0)
-    s.add(*ob.hyps)
-    s.add(z3.Not(ob.goal))
-    r = s.check()
-    ob.backend = "z3-" + z3.get_version_string()
     model = None
-    if r == z3.unsat:
-        ob.verdict = "proved"
-    elif r == z3.sat:
-        ob.verdict = "failed"
-        model = s.model()
-    else:
-        ob.verdict = "unknown"
+    ob.verdict = "unknown"
+    for budget, seed in ((timeout_ms, 0), (long_ms, 1)):
+        if budget <= 1:
+            continue
+        s = z3.Solver()
+        s.set("timeout", budget)
+        s.set("random_seed", seed)
+        s.add(*ob.hyps)
+        s.add(z3.Not(ob.goal))
+        r = s.check()
+        ob.backend = "z3-" + z3.get_version_string()
+        if r == z3.unsat:
+            ob.verdict = "proved"
+            break
+        if r == z3.sat:
+            ob.verdict = "failed"
+            model = s.model()
+            break
+    if ob.verdict == "unknown":
         try:
             br, bm, info = bounded_check(ob.hyps, ob.goal)
         except z3.Z3Exception as e:
             br, bm, info = "unknown", None, {"error": str(e)[:200]}
         if br == "unsat":
             ob.verdict = "proved"
-            ob.backend = "z3-" + z3.get_version_string() + "+bounded-instantiation"
+            ob.backend = "z3-%s+bounded-instantiation(%s)" % (z3.get_version_string(), info.get("qf_backend"))
         elif br == "sat":
             ob.verdict = "failed"
-            ob.backend = "z3-" + z3.get_version_string() + "+bounded-instantiation(candidate model)"
+            ob.backend = "bounded-instantiation(%s) candidate counter-model; full formula undecided by z3 in %d ms" % (
+                info.get("qf_backend"), timeout_ms + long_ms)
             model = bm
-        else:
-            s2 = z3.Solver()
-            s2.set("timeout", long_ms)
-            s2.set("random_seed", 1)
-            s2.add(*ob.hyps)
-            s2.add(z3.Not(ob.goal))
-            r2 = s2.check()
-            if r2 == z3.unsat:
-                ob.verdict = "proved"
-            elif r2 == z3.sat:
-                ob.verdict = "failed"
-                model = s2.model()
-        if ob.verdict == "unknown" and use_cvc5:
-            c = run_cvc5(to_smt2(ob.hyps, ob.goal), 20)
-            if c == "unsat":
-                ob.verdict = "proved"
-                ob.backend = "cvc5-1.0.3"
-            elif c == "sat":
-                ob.verdict = "failed"
-                ob.backend = "cvc5-1.0.3"
+    if ob.verdict == "unknown" and use_cvc5:
+        c = run_cvc5(to_smt2(ob.hyps, ob.goal), 20)
+        if c == "unsat":
+            ob.verdict = "proved"
+            ob.backend = "cvc5-1.0.3"
+        elif c == "sat":
+            ob.verdict = "failed"
+            ob.backend = "cvc5-1.0.3"
     if model is not None:
         try:
             ob.model = {str(d): str(model[d])[:160] for d in model.decls() if d.arity() == 0 and
